@@ -20,7 +20,9 @@ Qed.
 
 Theorem main_mt_out_of_bounds n i : n <= i -> leaf_index_to_mt_index_and_peak_index_ok i n = false.
 Proof.
-  intros H. unfold leaf_index_to_mt_index_and_peak_index_ok. destruct (Z.ltb_spec i n); [lia|reflexivity].
+  intros H. unfold leaf_index_to_mt_index_and_peak_index_ok.
+  (* the assert!(leaf_index < leaf_count) is the first conjunct, however the comparison is spelt *)
+  match goal with |- (?c && _) = false => let E := fresh in assert (E : c = false) by lia; rewrite E; reflexivity end.
 Qed.
 
 Theorem main_right_lineage_length_from_leaf_index n i : 0 <= i < n -> n < 2 ^ 63 ->
